@@ -15,7 +15,7 @@ from . import wire
 from .vnet import EOF, RST
 
 # GEX selection styles
-STRICT, ROUNDUP, OPENSSH, LENIENT = 'strict', 'roundup', 'openssh', 'lenient'
+STRICT, ROUNDUP, OPENSSH, LENIENT, PREFER = 'strict', 'roundup', 'openssh', 'lenient', 'prefer'
 
 
 class Conn:
@@ -349,6 +349,13 @@ class GexPolicy:
             # the requested minimum and maximum are not enforced
             c = [x for x in s if x >= pref]
             return (min(c) if c else max(s)) if s else None
+        if self.style == PREFER:
+            # within the requested range: the smallest group at least as large as the preferred size, else the largest one; none in range: refused
+            c = [x for x in s if mn <= x <= mx]
+            if not c:
+                return None
+            ge = [x for x in c if x >= pref]
+            return min(ge) if ge else max(c)
         if self.style == OPENSSH:
             # dh.c choose_dh(): best = smallest size >= wantbits within [min,max]; else largest within range;
             # else fall back to a built-in group chosen by max.
